@@ -40,6 +40,9 @@ SeatsAgree ==
             Msg.cond["aggregator_in_subcommittee"] = SubnetValid(ToSet(E.seats), E.subsize, E.subnet)
       [] OTHER -> TRUE
 
+\* the harness's claim about an exit's signature is recomputed from the domain rule (a function of the epochs)
+ExitSigAgrees == (E.topic = "exit" /\ Msg.cond["index_known"]) => (Msg.cond["signature"] = ExitSignatureValid(E.xdom))
+
 PreAgrees == \A k \in CachesOf(E.topic) : (E.pre[k] = 1) = (Msg.key[k] \ seen[k] # {})
 
 FailNames(m) == {r.n : r \in Failing(seen, m)}
@@ -136,6 +139,8 @@ DoMsg ==
                 ELSE IF ~SeatsAgree
                 THEN Report("MISMATCH", "subnet claim differs from the subnets of all committee seats",
                             <<E.seats, E.subsize, E.subnet>>) /\ Adopt(marks)
+                ELSE IF ~ExitSigAgrees
+                THEN Report("MISMATCH", "signature claim differs from the exit domain rule", E.xdom) /\ Adopt(marks)
                 ELSE IF ~PreAgrees
                 THEN Report("MISMATCH", "harness cache state differs from the model", seen) /\ Adopt(marks)
                 ELSE IF Correct(seen, m, v, marks)
